@@ -160,6 +160,9 @@ impl Prop for C16 {
     fn stubbed_components(&self) -> Vec<String> {
         vec!["none (private real directory tree)".into()]
     }
+    fn prod_digest_comparable(&self) -> bool {
+        true
+    }
     fn runs(&self, tier: Tier) -> u64 {
         match tier {
             Tier::Quick => 700,
@@ -333,7 +336,7 @@ impl Prop for C16 {
 
 // ------------------------------------------------------------------ C17
 
-fn gen_tree(rng: &mut Rng, root: &Path) -> BTreeMap<String, Vec<u8>> {
+fn gen_tree(rng: &mut Rng, root: &Path, allow_big: bool) -> BTreeMap<String, Vec<u8>> {
     // relative paths (as given to `create`) -> content
     let mut files = BTreeMap::new();
     let n = rng.range(1, 6);
@@ -355,7 +358,7 @@ fn gen_tree(rng: &mut Rng, root: &Path) -> BTreeMap<String, Vec<u8>> {
             0 => 0,
             1 => 128 * 1024 - rng.below(3) as usize,
             2 => 128 * 1024 + rng.below(40) as usize,
-            3 if rng.chance(1, 3) => 4 * 1024 * 1024 + rng.below(3) as usize - 1,
+            3 if allow_big && rng.chance(1, 3) => 4 * 1024 * 1024 + rng.below(3) as usize - 1,
             _ => rng.range(1, 5000) as usize,
         };
         let data = if rng.chance(1, 2) { Data::Rand { n: size, seed: rng.u64() } } else { Data::Text { n: size, seed: rng.u64() } }.bytes();
@@ -389,9 +392,12 @@ impl Prop for C17 {
     fn stubbed_components(&self) -> Vec<String> {
         vec!["none (private real directory tree)".into()]
     }
+    fn prod_digest_comparable(&self) -> bool {
+        true
+    }
     fn runs(&self, tier: Tier) -> u64 {
         match tier {
-            Tier::Quick => 160,
+            Tier::Quick => 400,
             Tier::Thorough => 8000,
         }
     }
@@ -404,13 +410,15 @@ impl Prop for C17 {
         case.params.insert("tree_seed".into(), (rng.u64() >> 1) as i64);
         case.params.insert("create_form".into(), rng.below(3) as i64);
         case.params.insert("chain_seed".into(), (rng.u64() >> 1) as i64);
+        case.params.insert("chain_level_max".into(), *rng.pick(&[3i64, 5, 5, 11]));
         case
     }
     fn exec(&self, case: &Case, ctx: &mut Ctx) -> Vec<Violation> {
         let mut v = Vec::new();
         let root = scratch("c17", case.param("tree_seed", 0) as u64);
         let mut trng = Rng::new(case.param("tree_seed", 1) as u64);
-        let files = gen_tree(&mut trng, &root);
+        let big_ok = case.cfg.level <= 5 && case.param("chain_level_max", 11) <= 5;
+        let files = gen_tree(&mut trng, &root, big_ok);
         let (pubs, privs) = write_keys(&root, case.cfg.key_seed, 4);
         let layer_args = |layers: u8, level: u32, recips: &[usize]| -> Vec<String> {
             let mut a = Vec::new();
@@ -599,7 +607,7 @@ impl Prop for C17 {
             let is_repair = crng.chance(1, 2);
             let mut a = vec![s(if is_repair { "repair" } else { "convert" }), s("-i"), cur.clone(), s("-o"), next.clone()];
             a.extend(key_args.clone());
-            a.extend(layer_args(nl, crng.below(12) as u32, &[nk]));
+            a.extend(layer_args(nl, crng.below(case.param("chain_level_max", 11) as u64 + 1) as u32, &[nk]));
             let r = run(&a, None);
             ctx.eval();
             chain.push(if is_repair { "repair" } else { "convert" });
